@@ -591,4 +591,18 @@ theorem inline_examples :
     exprOf ['a', ' ', '=', '~', ' ', '\'', 'x', ' ', 'y', '\''] [(['p'], .str ['x', ' ', 'y'])] = none := by
   refine ⟨?_, ?_, ?_, ?_, ?_, ?_⟩ <;> decide +kernel
 
+-- non-vacuity: the hypotheses of `inline_equiv_expr_string` hold for the template `a = $p AND b > 1`,
+-- p ↦ `x y`, and the inlined text `a = 'x y' AND b > 1` (a = `a =`, ws = one blank, after 3 tokens)
+example :
+    ParamName ['p'] ∧ WordEnd ([' ', 'A', 'N', 'D', ' ', 'b', ' ', '>', ' ', '1'] ++ [eofRune]) ∧ Expressible ['x', ' ', 'y'] ∧
+    lookupParam ['p'] [(['p'], (ParamValue.string ['x', ' ', 'y']).bound)] = some (ParamValue.string ['x', ' ', 'y']).bound ∧
+    (∀ c ∈ [' '], isWhitespace c = true) ∧
+    foldCR ['a', ' ', '=', ' ', '$', 'p', ' ', 'A', 'N', 'D', ' ', 'b', ' ', '>', ' ', '1'] = ['a', ' ', '='] ++ ([' '] ++ ('$' :: (['p'] ++ [' ', 'A', 'N', 'D', ' ', 'b', ' ', '>', ' ', '1']))) ∧
+    foldCR ['a', ' ', '=', ' ', '\'', 'x', ' ', 'y', '\'', ' ', 'A', 'N', 'D', ' ', 'b', ' ', '>', ' ', '1'] = ['a', ' ', '='] ++ ([' '] ++ (quoteString ['x', ' ', 'y'] ++ [' ', 'A', 'N', 'D', ' ', 'b', ' ', '>', ' ', '1'])) ∧
+    ([' '] ≠ [] ∧ (scanN 3 (Cursor.ofRunes ['a', ' ', '=', ' ', '$', 'p', ' ', 'A', 'N', 'D', ' ', 'b', ' ', '>', ' ', '1'])).rest.length =
+      ([' '] ++ ('$' :: (['p'] ++ ([' ', 'A', 'N', 'D', ' ', 'b', ' ', '>', ' ', '1'] ++ [eofRune])))).length) ∧
+    (∀ x ∈ ['a', ' ', '='], x ≠ '/' ∧ x ≠ eofRune) :=
+  ⟨⟨'p', [], rfl, by decide⟩, WordEnd.blank _, by decide, by simp [lookupParam], by decide,
+    by decide +kernel, by decide +kernel, ⟨by decide, by decide +kernel⟩, by decide⟩
+
 end InfluxQL.C07
